@@ -1129,6 +1129,47 @@ fn malformed(schema: &Schema, pools: &Pools, rng: &mut Rng, key: &str) -> Vec<(&
             }
         }
     }
+    // an inner (non-repeated) length-prefixed element, at any depth, announces more bytes than its container holds; the
+    // enclosing lengths are consistent
+    fn overrun_inner(n: &mut refcodec::codec::Node, rng: &mut Rng, depth: usize) -> bool {
+        let Payload::Struct(s) = &mut n.payload else { return false };
+        let mut order: Vec<usize> = (0..s.groups.len()).collect();
+        rng.shuffle(&mut order);
+        for gi in order {
+            let g = &mut s.groups[gi];
+            if g.repeated {
+                continue;
+            }
+            let e = &mut g.elems[0];
+            if depth >= 1 && matches!(e.len, refcodec::layout::Len::Ber) && rng.chance(1, 2) {
+                let plen = match &e.payload {
+                    Payload::Leaf(b) => b.len(),
+                    Payload::Struct(st) => st.bytes().map(|b| b.len()).unwrap_or(0),
+                };
+                e.prefix_override = refcodec::codec::ber_len(plen + 1 + rng.below(6) as usize);
+                return true;
+            }
+            if overrun_inner(e, rng, depth + 1) {
+                return true;
+            }
+        }
+        false
+    }
+    for _ in 0..40 {
+        let v = gen.gen_struct(rng, def, Presence::Random, 0);
+        if codec.canonical(def, &v).is_err() {
+            continue;
+        }
+        let Ok(mut t) = codec.enc_top(def, &v) else { continue };
+        if overrun_inner(&mut t, rng, 0) {
+            if let Some(b) = t.bytes() {
+                if b.len() <= 900 {
+                    cands.push(("inner-element-overruns-its-container", b));
+                    break;
+                }
+            }
+        }
+    }
     // keep only those the reference decoder rejects for a reason the codec properties make mandatory
     cands.retain(|(_, b)| matches!(codec.decode(def, b), Err(refcodec::codec::RefErr::Incomplete | refcodec::codec::RefErr::Duplicate(_) | refcodec::codec::RefErr::Missing(_))));
     cands
@@ -1137,7 +1178,7 @@ fn malformed(schema: &Schema, pools: &Pools, rng: &mut Rng, key: &str) -> Vec<(&
 pub fn run_c06(ctx: &Ctx) -> i32 {
     let mut report = ctx.report("C06", "fault_enumeration");
     let depth = ctx.by(4usize, 6usize);
-    report.rule = format!("18 streams x every valid prefix of non-final replies of length <= {depth} x fault kinds {{NACK 84xx in place of a packet (all 256 codes at the acknowledgement position; in addition every one of the 65535 control fields other than 80 00 as a bare packet in place of the acknowledgement, with the regular script queued behind it), the same followed by the regular script (a terminal that did not notice), control field outside the reply set, malformed body for a control field inside the set (rejected by the reference decoder as incomplete/duplicate/missing: top-level duplicate tag, value cut short, missing positional field, a later element of a repeated field announcing more than its container holds), packet truncated at every offset followed by end of stream, clean end of stream at the packet boundary}} at every position (the acknowledgement position included), chunking whole / byte-wise; for WriteFile additionally every fault kind right behind (or inside) a complete upload of small firmware/application files, and requests that decode but cannot be served (no file id, no offset, unknown id, no file element) after any number of good requests, alone and followed by a good request and the completion. Oracle over the event log: the valid prefix is processed exactly as in C05; after the first faulty byte was delivered there is no write at all, exactly one Err item, then End (no parking). Non-trivial = every fault scenario; distinct by hash of (stream, prefix bytes, fault bytes, position, chunking).");
+    report.rule = format!("18 streams x every valid prefix of non-final replies of length <= {depth} x fault kinds {{NACK 84xx in place of a packet (all 256 codes at the acknowledgement position; in addition every one of the 65535 control fields other than 80 00 as a bare packet in place of the acknowledgement, with the regular script queued behind it), the same followed by the regular script (a terminal that did not notice), control field outside the reply set, malformed body for a control field inside the set (rejected by the reference decoder as incomplete/duplicate/missing: top-level duplicate tag, value cut short, missing positional field, a later element of a repeated field, or an inner non-repeated element at any depth, announcing more than its container holds), packet truncated at every offset followed by end of stream, clean end of stream at the packet boundary}} at every position (the acknowledgement position included), chunking whole / byte-wise; for WriteFile additionally every fault kind right behind (or inside) a complete upload of small firmware/application files, and requests that decode but cannot be served (no file id, no offset, unknown id, no file element) after any number of good requests, alone and followed by a good request and the completion. Oracle over the event log: the valid prefix is processed exactly as in C05; after the first faulty byte was delivered there is no write at all, exactly one Err item, then End (no parking). Non-trivial = every fault scenario; distinct by hash of (stream, prefix bytes, fault bytes, position, chunking).");
     report.exhaustive = Some(true);
     report.assumptions = vec!["malformed bodies are restricted to those whose rejection follows from C02/C13/C14 (top-level duplicate tag, value cut short, missing positional field, a later element of a repeated field overrunning its container)".into()];
     let schema = refcodec::zvt_schema();
